@@ -63,13 +63,11 @@ Qed.
 Lemma Step_idle_kind h h' out : Step h h' out -> slice_kind h = true ->
   idle h' = true /\ slice_kind h' = true.
 Proof.
-  intros (f & d & h1 & nt & d' & flag & Ha & Hr) Hk.
-  destruct h; try discriminate; cbn [auto] in Ha.
-  - inv_bind Ha as [[[rel q'] ds'] nt']. inversion Ha; subst. cbn in Hr. inversion Hr; subst. split; reflexivity.
-  - inv_bind Ha as [[[rel q'] ds'] nt']. inversion Ha; subst. cbn in Hr. inversion Hr; subst. split; reflexivity.
-  - inv_bind Ha as [[[rel q'] ds'] nt']. inversion Ha; subst. cbn in Hr. inversion Hr; subst. split; reflexivity.
-  - inv_bind Ha as [[[rel q'] ds'] nt']. inversion Ha; subst. cbn in Hr. inversion Hr; subst. split; reflexivity.
-  - inv_bind Ha as [[[[x is_new] sk] q'] ds']. inversion Ha; subst. cbn in Hr. inversion Hr; subst. split; reflexivity.
+  intros (f & d & h1 & nt & d' & flag & Ha & Hr) _. split; [|reflexivity].
+  pose proof (release_flag _ _ _ _ Hr) as Hd.
+  unfold release in Hr. rewrite Hd in Hr.
+  destruct h1 as [q tr|q tr|m tr|m tr|q tr last|q tr last|m tr last]; destruct tr as [t|];
+    try discriminate; try (destruct t); inversion Hr; reflexivity.
 Qed.
 
 (* TotalOrder batch hook: released ++ remaining = queue, as lists *)
